@@ -974,7 +974,7 @@ fn gen_cases(ctx: &Ctx) -> Vec<Case> {
     // plus rANS 4x8; thorough: every payload runs every configuration.
     let thin = ctx.budget("thin", 8, 1) as u32;
     let mut payload_cases: Vec<Case> = Vec::new();
-    let mut push_payload = |v: &mut Vec<Case>, class: &str, len: usize, ps: u64| {
+    let push_payload = |v: &mut Vec<Case>, class: &str, len: usize, ps: u64| {
         let n = parts_for(len) * thin;
         if thin > 1 {
             let p = (fnv1a(format!("{class}|{len}|{ps}").as_bytes()) % n as u64) as u32;
@@ -1090,7 +1090,7 @@ fn gen_cases(ctx: &Ctx) -> Vec<Case> {
 // evidence post-processing
 // ------------------------------------------------------------------------------------------------
 
-/// Folds the per-run counters `L|cfg|len`, `X|cfg`, `J|cfg|reason`, `N|cfg` into one table per
+/// Folds the per-run counters `L~cfg~len`, `X~cfg`, `J~cfg~reason`, `N~cfg` into one table per
 /// codec x configuration: cases, distinct lengths covered, cross-decoded cases, rejections.
 fn summarise(rep: &mut Report) {
     let mut per: std::collections::BTreeMap<String, Map<String, Value>> = Default::default();
